@@ -883,34 +883,47 @@ def _dist_to_lines(P, A, B):
     return np.min(np.linalg.norm(perp, axis=-1), axis=1)
 
 
-def special_dist(body: Body, P):
-    """distance (absolute) from points P to the nearest special set of the body, prolongations included"""
+def special_dist(body: Body, P, with_name=False, all_sets=False):
+    """distance (absolute) from points P to the nearest special set of the body, prolongations included;
+    with_name=True also returns the name of that set per point"""
     P = np.atleast_2d(np.asarray(P, dtype=float))
+    cands = []  # (name, distances)
     if isinstance(body, Polyhedron):
         ed = body.edges()
-        if not ed:
-            return body.dist(P)
-        A = np.array([e[0] for e in ed])
-        B = np.array([e[1] for e in ed])
-        return np.minimum(_dist_to_lines(P, A, B), body.dist(P))
-    if isinstance(body, PolylineBody):
+        if ed:
+            A = np.array([e[0] for e in ed])
+            B = np.array([e[1] for e in ed])
+            cands.append(("edge_line", _dist_to_lines(P, A, B)))
+        cands.append(("surface", body.dist(P)))
+    elif isinstance(body, PolylineBody):
         m = np.any(body.V[:-1] != body.V[1:], axis=1)
-        return _dist_to_lines(P, body.V[:-1][m], body.V[1:][m])
-    if isinstance(body, CylSeg):
+        cands.append(("segment_line", _dist_to_lines(P, body.V[:-1][m], body.V[1:][m])))
+    elif isinstance(body, CylSeg):
         r = np.hypot(P[:, 0], P[:, 1])
         phi = np.arctan2(P[:, 1], P[:, 0])
         z = P[:, 2]
-        d = np.minimum(np.abs(r - body.r2), np.minimum(np.abs(z - body.h / 2), np.abs(z + body.h / 2)))
-        d = np.minimum(d, r)
+        cands.append(("axis", r))
+        cands.append(("r2", np.abs(r - body.r2)))
         if body.r1 > 0:
-            d = np.minimum(d, np.abs(r - body.r1))
+            cands.append(("r1", np.abs(r - body.r1)))
+        cands.append(("z_plane", np.minimum(np.abs(z - body.h / 2), np.abs(z + body.h / 2))))
         if not body.full:
+            d = np.full(len(P), np.inf)
             for ang in (body.phi1, body.phi2):
                 d = np.minimum(d, np.abs(r * np.sin(phi - ang)))
-        return d
-    if isinstance(body, SphereBody):
-        return body.dist(P)
-    if isinstance(body, CircleBody):
+            cands.append(("phi_plane", d))
+    elif isinstance(body, CircleBody):
         r = np.hypot(P[:, 0], P[:, 1])
-        return np.minimum(body.dist(P), np.minimum(np.abs(r - body.R) + 0 * r, np.maximum(r, 0)))
-    return body.dist(P)
+        cands.append(("wire", body.dist(P)))
+        cands.append(("axis", r))
+        cands.append(("r0", np.abs(r - body.R)))
+    else:
+        cands.append(("surface", body.dist(P)))
+    if all_sets:
+        return {name: d for name, d in cands}
+    D = np.stack([c[1] for c in cands])
+    k = np.argmin(D, axis=0)
+    dmin = D[k, np.arange(len(P))]
+    if with_name:
+        return dmin, [cands[i][0] for i in k]
+    return dmin
